@@ -42,9 +42,10 @@ def to_smt2(pc, goal, light=False):
     return s.to_smt2()
 
 
-def _cmd(backend, path, timeout_s):
+def _cmd(backend, path, timeout_s, seed=0):
     if backend == "z3":
-        return [Z3, f"-T:{int(timeout_s)}", "model_validate=false", path]
+        extra = [f"smt.random_seed={seed}", f"sat.random_seed={seed}"] if seed else []
+        return [Z3, f"-T:{int(timeout_s)}", "model_validate=false", *extra, path]
     return [CVC5, "--strings-exp", "--produce-models", f"--tlimit={int(timeout_s * 1000)}", path]
 
 
@@ -59,7 +60,8 @@ def _parse(out):
 
 
 def _solve_one(args):
-    smt2, timeout_s, mode = args  # mode: 'first' (portfolio) | 'both'
+    smt2, timeout_s, mode = args[:3]  # mode: 'first' (portfolio) | 'both'
+    seeds = args[3] if len(args) > 3 else None
     t0 = time.time()
     fd, path = tempfile.mkstemp(suffix=".smt2", dir=SCRATCH)
     with os.fdopen(fd, "w") as f:
@@ -69,6 +71,8 @@ def _solve_one(args):
     try:
         for b in ("z3", "cvc5"):
             procs[b] = subprocess.Popen(_cmd(b, path, timeout_s), stdout=subprocess.PIPE, stderr=subprocess.STDOUT, text=True)
+        for sd in seeds or ():
+            procs[f"z3#{sd}"] = subprocess.Popen(_cmd("z3", path, timeout_s, sd), stdout=subprocess.PIPE, stderr=subprocess.STDOUT, text=True)
         deadline = t0 + timeout_s + 3
         pending = dict(procs)
         while pending and time.time() < deadline:
@@ -186,6 +190,14 @@ def _discharge_parts(todo, timeout_s, jobs, both):
     mode = "both" if both else "first"
     with ThreadPoolExecutor(max_workers=jobs) as ex:
         res = list(ex.map(_solve_one, [(ob.smt2, timeout_s, mode) for ob in todo]))
+    # retry what is still unknown with a longer budget and a portfolio of random seeds, so that a verdict does not
+    # depend on solver luck (an unknown is never reported before this second attempt)
+    again = [i for i, rs in enumerate(res) if not any(r[0] in ("sat", "unsat") for r in rs.values())]
+    if again:
+        with ThreadPoolExecutor(max_workers=max(2, jobs // 2)) as ex:
+            res2 = list(ex.map(_solve_one, [(todo[i].smt2, timeout_s * 3, "first", (1, 2, 3)) for i in again]))
+        for i, rs in zip(again, res2):
+            res[i] = {k.split("#")[0] if r[0] in ("sat", "unsat") else k: r for k, r in rs.items()}
     for ob, rs in zip(todo, res):
         ob.cvc5 = rs.get("cvc5")
         definite = {b: r for b, r in rs.items() if r[0] in ("sat", "unsat")}
